@@ -268,6 +268,9 @@ pub enum OpKind {
     },
     U2fVersion {
         le: bool,
+        /// value of the extended Le field of the (data-less) version frame
+        #[serde(default)]
+        le_val: u16,
     },
     /// harness edits the stored counter of the n-th model credential
     SetCounter {
